@@ -63,7 +63,7 @@ func (c04) Info(t core.Tier) core.Info {
 
 func c04TableCases() int { return len(c04Kinds) * len(c04ModSeqs) * c04Contexts }
 
-func (c04) NumCases(t core.Tier) int { return c04TableCases() + tierN(t, 6000, 300000) }
+func (c04) NumCases(t core.Tier) int { return c04TableCases() + tierN(t, 6000, 1500000) }
 
 type c04base struct {
 	witness, passDef, failDef any
